@@ -1059,6 +1059,9 @@ func (b *Bounds) proveCtx(fn *ssa.Function, blk *ssa.BasicBlock, mk func(s *scop
 	var goals []Cons
 	if mk != nil {
 		goals = mk(s, pr)
+		if len(goals) == 0 {
+			return false, "the goal cannot be expressed (a length or value in it is not modelled)"
+		}
 	}
 	if hyp != nil {
 		hyp(s, pr)
